@@ -216,7 +216,7 @@ pub fn decode_c04(data: &[u8]) -> Vec<c04::Op> {
             10..=13 => Op::Rotate(1 + byte(&mut u) % 5),
             14 => Op::EditPush(ind(&mut u)),
             15 => [Op::EditRemoveFirst, Op::EditReverse, Op::EditRetag((byte(&mut u) % 40) as u16)][(b / 20) as usize % 3].clone(),
-            16 => Op::CompRotate(1 + byte(&mut u) % 6),
+            16 => if b >= 128 { Op::Nest(byte(&mut u) % 3) } else { Op::CompRotate(1 + byte(&mut u) % 6) },
             17 => [Op::CompClear, Op::CompDuplicate][(b / 20) as usize % 2].clone(),
             18 => Op::CompInterleave,
             _ => Op::CompSplit,
